@@ -47,6 +47,16 @@ Theorem C09_siblings_independent : forall ops a x y c1 c2 c3 c4 more,
   icontent h2 (S (nobjs h)) = icontent h a ++ [y].
 Proof. exact siblings_independent_lemma. Qed.
 
+(* observer-style operations (a built-in that takes existing handles as operands and only reads them: ~, =, +,
+   sum, min, order, groupBy*, string(), ... - every list method and operator except append): in the model
+   such a step is the materialisation (Eval) of any handles with any capacities and nothing else; it adds no
+   handle, changes nobody's content and leaves the abstraction of the whole heap as it is.  That the real
+   built-ins ARE such steps is checked by the correspondence run (every handle observed after every observer). *)
+Theorem C09_observe_preserves : forall evs h, inv h ->
+  let h' := run_from h (observe_ops evs) in
+  inv h' /\ nobjs h' = nobjs h /\ (forall x, icontent h' x = icontent h x) /\ abs h' = abs h.
+Proof. exact observe_preserves_lemma. Qed.
+
 (* maps: no operation of value/map.go changes what an existing map yields (Get, Iter, Size, sorted entries) *)
 Theorem C09_map_step_preserves : forall h o i m, mwf h -> get_map h i = Some m ->
   mwf (mstep h o) /\ get_map (mstep h o) i = Some m /\
@@ -124,6 +134,7 @@ Print Assumptions C09_history_persistent.
 Print Assumptions C09_history_items_view.
 Print Assumptions C09_run_refines.
 Print Assumptions C09_siblings_independent.
+Print Assumptions C09_observe_preserves.
 Print Assumptions C09_map_step_preserves.
 Print Assumptions C09_map_history_persistent.
 Print Assumptions C09_combineN_alias_refuted.
